@@ -27,7 +27,9 @@ pub enum AbsChunk {
         /// distances are observable
         lead: u8,
         prog: Vec<AbsOp>,
-        /// 0: nothing; k in 1..=32: pad the chunk's output to exactly k * 64 KiB
+        /// 0: nothing; k in 1..=32: pad the chunk's output to exactly k * 64 KiB;
+        /// 255: instead, append incompressible literals until the compressed
+        /// payload is exactly 65536 bytes (the maximum the size field can express)
         exact64k: u8,
     },
 }
@@ -97,7 +99,8 @@ pub fn concretize_chunks(abs: &[AbsChunk], cfg: L2Cfg) -> Vec<Chunk> {
             }
             AbsChunk::Lzma { reset, props, lead, prog, exact64k } => {
                 // exact-size padding only when the stream budget allows it
-                let exact64k = &(if cfg.max_total.saturating_sub(it.out.len()) >= (*exact64k as usize).min(32) * 65536 {
+                let packed_fill = *exact64k == 255 && cfg.max_total.saturating_sub(it.out.len()) >= 70_000;
+                let exact64k = &(if *exact64k != 255 && cfg.max_total.saturating_sub(it.out.len()) >= (*exact64k as usize).min(32) * 65536 {
                     *exact64k
                 } else {
                     0
@@ -177,6 +180,48 @@ pub fn concretize_chunks(abs: &[AbsChunk], cfg: L2Cfg) -> Vec<Chunk> {
                         it2.apply(&op).expect("valid by construction");
                         enc2.encode(&mut rc, &op);
                         ops.push(op);
+                    }
+                }
+                if packed_fill {
+                    // grow the payload to exactly MAX_PACKED bytes: noise literals while there is
+                    // room, then search for a last symbol that lands exactly on the limit
+                    let mut salt = 0u8;
+                    while (rc.final_len() as usize) < MAX_PACKED - 3 {
+                        let op = concretize_one(&AbsOp::Lit(LitKind::Noise, salt), &it2, u64::MAX);
+                        salt = salt.wrapping_add(1);
+                        it2.apply(&op).unwrap();
+                        enc2.encode(&mut rc, &op);
+                        ops.push(op);
+                    }
+                    let mut guard = 0;
+                    while (rc.final_len() as usize) < MAX_PACKED && guard < 64 {
+                        guard += 1;
+                        let mut best: Option<(Op, RcEnc, SymEncoder)> = None;
+                        for cand in 0..=255u8 {
+                            let op = Op::Lit(cand);
+                            let mut rc3 = rc.clone();
+                            let mut enc3 = enc2.clone_model_only();
+                            enc3.encode(&mut rc3, &op);
+                            let fl = rc3.final_len() as usize;
+                            if fl <= MAX_PACKED && fl > rc.final_len() as usize || (fl == rc.final_len() as usize && best.is_none()) {
+                                let better = match &best {
+                                    None => true,
+                                    Some((_, b, _)) => fl > b.final_len() as usize,
+                                };
+                                if better && fl <= MAX_PACKED {
+                                    best = Some((op, rc3, enc3));
+                                }
+                            }
+                        }
+                        match best {
+                            Some((op, rc3, enc3)) => {
+                                it2.apply(&op).unwrap();
+                                enc2.adopt_model(enc3, &op);
+                                rc = rc3;
+                                ops.push(op);
+                            }
+                            None => break,
+                        }
                     }
                 }
                 if ops.is_empty() {
@@ -271,7 +316,7 @@ fn big_packed_chunk() -> impl Strategy<Value = AbsChunk> {
 
 /// chunk whose output is EXACTLY k * 64 KiB (k = 1..=32): size fields with an all-ones low half
 fn exact_64k_multiple_chunk() -> impl Strategy<Value = AbsChunk> {
-    (props_lzma2(), any::<u8>(), 1u16..=8, 0u8..4, any::<u16>()).prop_map(|(props, b, k, reset, dsel)| AbsChunk::Lzma {
+    (props_lzma2(), any::<u8>(), prop_oneof![6 => 1u16..=8, 1 => 9u16..=32], 0u8..4, any::<u16>()).prop_map(|(props, b, k, reset, dsel)| AbsChunk::Lzma {
         reset,
         props,
         lead: b,
@@ -327,6 +372,28 @@ pub fn many_tiny_chunks() -> BoxedStrategy<Vec<AbsChunk>> {
     .boxed()
 }
 
+/// chunk whose compressed payload is exactly 65536 bytes
+pub fn exact_max_packed_chunk() -> impl Strategy<Value = AbsChunk> {
+    (props_lzma2(), any::<u8>(), 0u8..4).prop_map(|(props, b, reset)| AbsChunk::Lzma {
+        reset,
+        props,
+        lead: b,
+        exact64k: 255,
+        prog: vec![AbsOp::Lit(LitKind::Noise, b)],
+    })
+}
+
+/// chunk with a compressed payload above 32 KiB (size field >= 0x8000)
+pub fn over_32k_packed_chunk() -> impl Strategy<Value = AbsChunk> {
+    (props_lzma2(), any::<u8>(), 0u8..4, 34_000u16..60_000).prop_map(|(props, b, reset, k)| AbsChunk::Lzma {
+        reset,
+        props,
+        lead: b,
+        exact64k: 0,
+        prog: vec![AbsOp::Run { k, op: Box::new(AbsOp::Lit(LitKind::Noise, b)) }],
+    })
+}
+
 pub fn abs_chunks(max_chunks: usize, max_ops: usize, max_run: u16, extremes: bool) -> BoxedStrategy<Vec<AbsChunk>> {
     if extremes {
         prop::collection::vec(
@@ -334,6 +401,8 @@ pub fn abs_chunks(max_chunks: usize, max_ops: usize, max_run: u16, extremes: boo
                 30 => abs_chunk(max_ops, max_run),
                 3 => over_64k_chunk(),
                 2 => exact_64k_multiple_chunk(),
+                1 => exact_max_packed_chunk(),
+                1 => over_32k_packed_chunk(),
                 1 => big_unpacked_chunk(),
                 1 => big_packed_chunk(),
             ],
@@ -342,7 +411,13 @@ pub fn abs_chunks(max_chunks: usize, max_ops: usize, max_run: u16, extremes: boo
         .boxed()
     } else {
         prop::collection::vec(
-            prop_oneof![30 => abs_chunk(max_ops, max_run), 2 => over_64k_chunk(), 1 => exact_64k_multiple_chunk()],
+            prop_oneof![
+                300 => abs_chunk(max_ops, max_run),
+                20 => over_64k_chunk(),
+                10 => exact_64k_multiple_chunk(),
+                1 => exact_max_packed_chunk(),
+                1 => over_32k_packed_chunk(),
+            ],
             1..=max_chunks,
         )
         .boxed()
